@@ -650,6 +650,18 @@ func init() {
 			return nil
 		},
 
+		"maps.clone": func(e *Engine, fn *ssa.Function, a []Value) Value {
+			iv := a[0].(IfaceV)
+			m, _ := iv.v.(*MapObj)
+			if m == nil {
+				return iv
+			}
+			e.objSeq++
+			nm := &MapObj{keyT: m.keyT, elemT: m.elemT, id: e.objSeq}
+			nm.keys = append(nm.keys, m.keys...)
+			nm.vals = append(nm.vals, m.vals...)
+			return IfaceV{t: iv.t, v: nm}
+		},
 		// ---- context
 		"context.Background": func(e *Engine, fn *ssa.Function, a []Value) Value {
 			t := e.namedType("context", "backgroundCtx")
